@@ -1,1 +1,345 @@
-/-! Property theorems for C07 (only property-level statements and non-vacuity examples live here). -/
+import SpoxModel.Lemmas.VPHistory
+import SpoxModel.Props.C15
+/-!
+# C07 - propagated constant values equal what the model computes
+
+Statements over *all construction histories* (`Model/VPHistory.lean`): any sequence of constructor
+calls (arguments, constants / initializers, standard operators, inlined models), any types produced
+by type inference, any backend behaviour at every call, either conversion pipeline. All for
+`Variant.fixed` (the tree after the `fix:` commits); `kept_value_conforms_counterexample` shows the
+container case false for the pinned behaviour.
+-/
+namespace C07
+open VP
+
+/-- What holds of every node of a reachable state. -/
+def NodeOK (st : State) (n : NodeRec) : Prop :=
+  (∀ o ∈ n.outputs, ∀ pv, o.value = some pv → o.type = some pv.type ∧ conforms pv.type pv.value) ∧
+  ((∃ o ∈ n.outputs, o.value.isSome = true) →
+    n.kind ≠ .argument ∧ ∀ i ∈ n.inputs, ∃ oi, st.var? i = some oi ∧ oi.value.isSome = true)
+
+def Inv (st : State) : Prop := ∀ (idx : Nat) (n : NodeRec), st[idx]? = some n → NodeOK st n
+
+theorem NodeOK.mono {st : State} {n : NodeRec} (m : NodeRec) (h : NodeOK st n) :
+    NodeOK (st ++ [m]) n :=
+  ⟨h.1, fun hv => ⟨(h.2 hv).1, fun i hi => by
+    obtain ⟨oi, h1, h2⟩ := (h.2 hv).2 i hi
+    exact ⟨oi, var?_append st m i oi h1, h2⟩⟩⟩
+
+/-- The outputs of a freshly constructed node conform (from C15's `no_bad_value`). -/
+theorem fresh_outputs_ok (sel : BackendSel) (k : Kind) (ctx : NodeCtx) (b : Backend)
+    (res : List (OutVar × Bool)) (h : construct Variant.fixed sel k ctx b = .ok res)
+    (hfresh : ∀ o ∈ ctx.outputs, o.value = none) :
+    ∀ o ∈ res.map (·.1), ∀ pv, o.value = some pv → o.type = some pv.type ∧ conforms pv.type pv.value := by
+  intro o ho pv hpv
+  simp only [List.mem_map] at ho
+  obtain ⟨ow, how, rfl⟩ := ho
+  rcases C15.no_bad_value sel k ctx b res h ow how pv hpv with ⟨o0, ho0, _, hv⟩ | ⟨h1, _, h3⟩
+  · rw [hfresh o0 ho0] at hv; cases hv
+  · exact ⟨h1, h3⟩
+
+theorem mkCtx_fresh (st : State) (inputs : List VarRef) (inNames : List String)
+    (outs : List (String × Option Ty)) (hs : Bool) :
+    ∀ o ∈ (mkCtx st inputs inNames outs hs).outputs, o.value = none := by
+  intro o ho
+  simp only [mkCtx, List.mem_map] at ho
+  obtain ⟨p, _, rfl⟩ := ho
+  rfl
+
+/-- Every input of the new node is seen, typed and valued, in the singleton scope. -/
+theorem inputs_valued_of_ctx (st : State) (inputs : List VarRef) (inNames : List String)
+    (outs : List (String × Option Ty)) (hs : Bool) (hlen : inNames.length = inputs.length)
+    (hex : inputsExist st inputs = true)
+    (hall : ∀ i ∈ (mkCtx st inputs inNames outs hs).inputs, i.hasValue = true ∧ i.type.isSome = true) :
+    ∀ r ∈ inputs, ∃ oi, st.var? r = some oi ∧ oi.value.isSome = true := by
+  intro r hr
+  simp only [inputsExist, List.all_eq_true] at hex
+  have hsome := hex r hr
+  obtain ⟨oi, hoi⟩ := Option.isSome_iff_exists.mp hsome
+  refine ⟨oi, hoi, ?_⟩
+  -- r sits at some position j of `inputs`; the zip has the pair (inNames[j], r)
+  obtain ⟨j, hj, hjr⟩ := List.getElem_of_mem hr
+  have hj' : j < inNames.length := by omega
+  have hmem : mkInVar st inNames[j] r ∈ (mkCtx st inputs inNames outs hs).inputs := by
+    simp only [mkCtx, List.mem_map]
+    refine ⟨(inNames[j], r), ?_, rfl⟩
+    have : (inNames.zip inputs)[j]'(by simp [List.length_zip]; omega) = (inNames[j], inputs[j]) := by
+      simp
+    rw [← hjr, ← this]
+    exact List.getElem_mem _
+  have := (hall _ hmem).1
+  simpa [mkInVar, hoi] using this
+
+/-- **The invariant is preserved by every constructor call.** -/
+theorem step_inv (st st' : State) (s : Step) (hinv : Inv st) (h : step Variant.fixed st s = .ok st') :
+    Inv st' := by
+  cases s with
+  | argument key ty =>
+    simp only [step, Except.ok.injEq] at h
+    subst h
+    intro idx n hn
+    rcases getElem?_snoc st _ idx n hn with h1 | ⟨_, rfl⟩
+    · exact (hinv idx n h1).mono _
+    · refine ⟨?_, ?_⟩
+      · intro o ho pv hpv
+        simp only [List.mem_singleton] at ho
+        subst ho
+        cases hpv
+      · rintro ⟨o, ho, hv⟩
+        simp only [List.mem_singleton] at ho
+        subst ho
+        simp at hv
+  | constant key ty p =>
+    simp only [step, Except.ok.injEq] at h
+    subst h
+    intro idx n hn
+    rcases getElem?_snoc st _ idx n hn with h1 | ⟨_, rfl⟩
+    · exact (hinv idx n h1).mono _
+    · refine ⟨?_, fun _ => ⟨by simp, by simp⟩⟩
+      intro o ho pv hpv
+      simp only [merge, List.map_cons, List.map_nil, List.mem_singleton] at ho
+      subst ho
+      rcases C15.mergeOne_value [(key, p)] ⟨key, ty, none⟩ pv hpv with h1 | ⟨_, h2, h3, _⟩
+      · cases h1
+      · refine ⟨by rw [(C15.mergeOne_key_type _ _ _).2]; exact h2, ?_⟩
+        cases pv with
+        | mk t q => exact C15.check_sound t q h3
+  | standard sel inputs inNames outs hasSub b sem =>
+    simp only [step] at h
+    split at h
+    · cases h
+    · rename_i hcond
+      simp only [Bool.or_eq_true, Bool.not_eq_eq_eq_not, Bool.not_true, bne_iff_ne, ne_eq,
+        not_or, Bool.not_eq_false, Decidable.not_not] at hcond
+      obtain ⟨hex, hlen⟩ := hcond
+      split at h
+      · cases h
+      · rename_i res hres
+        simp only [Except.ok.injEq] at h
+        subst h
+        intro idx n hn
+        rcases getElem?_snoc st _ idx n hn with h1 | ⟨_, rfl⟩
+        · exact (hinv idx n h1).mono _
+        · refine ⟨fresh_outputs_ok _ _ _ _ _ hres (mkCtx_fresh _ _ _ _ _), ?_⟩
+          rintro ⟨o, ho, hv⟩
+          refine ⟨by simp, ?_⟩
+          simp only [List.mem_map] at ho
+          obtain ⟨ow, how, rfl⟩ := ho
+          have hall := attached_inputs_valued _ _ _ _ _ hres (mkCtx_fresh _ _ _ _ _) ⟨ow, how, hv⟩
+          intro i hi
+          obtain ⟨oi, h1, h2⟩ := inputs_valued_of_ctx st inputs inNames outs hasSub hlen hex hall i hi
+          exact ⟨oi, var?_append st _ i oi h1, h2⟩
+  | inline sel inputs inNames gnames outs b sem =>
+    simp only [step] at h
+    split at h
+    · cases h
+    · rename_i hcond
+      simp only [Bool.or_eq_true, Bool.not_eq_eq_eq_not, Bool.not_true, bne_iff_ne, ne_eq,
+        not_or, Bool.not_eq_false, Decidable.not_not] at hcond
+      obtain ⟨hex, hlen⟩ := hcond
+      split at h
+      · cases h
+      · rename_i res hres
+        simp only [Except.ok.injEq] at h
+        subst h
+        intro idx n hn
+        rcases getElem?_snoc st _ idx n hn with h1 | ⟨_, rfl⟩
+        · exact (hinv idx n h1).mono _
+        · refine ⟨fresh_outputs_ok _ _ _ _ _ hres (mkCtx_fresh _ _ _ _ _), ?_⟩
+          rintro ⟨o, ho, hv⟩
+          refine ⟨by simp, ?_⟩
+          simp only [List.mem_map] at ho
+          obtain ⟨ow, how, rfl⟩ := ho
+          have hall := attached_inputs_valued _ _ _ _ _ hres (mkCtx_fresh _ _ _ _ _) ⟨ow, how, hv⟩
+          intro i hi
+          obtain ⟨oi, h1, h2⟩ := inputs_valued_of_ctx st inputs inNames outs false hlen hex hall i hi
+          exact ⟨oi, var?_append st _ i oi h1, h2⟩
+
+theorem reachable_inv (st : State) (h : Reachable Variant.fixed st) : Inv st := by
+  induction h with
+  | empty => intro idx n hn; simp at hn
+  | step s _ hs ih => exact step_inv _ _ s ih hs
+
+/-- **kept_value_conforms.** In every reachable program state, a Var that carries a value carries
+    one declared with exactly the Var's type, and the payload conforms to that type - containers,
+    element types (up to the platform alias classes) and shapes at every nesting level. -/
+theorem kept_value_conforms (st : State) (h : Reachable Variant.fixed st) (r : VarRef) (o : OutVar)
+    (pv : PropValue) (ho : st.var? r = some o) (hv : o.value = some pv) :
+    o.type = some pv.type ∧ conforms pv.type pv.value := by
+  unfold State.var? at ho
+  cases hn : st[r.node]? with
+  | none => simp [hn] at ho
+  | some n =>
+    simp only [hn] at ho
+    exact (reachable_inv st h r.node n hn).1 o (List.mem_of_getElem? ho) pv hv
+
+/-- A valued Var belongs to a non-Argument node all of whose inputs are valued Vars. -/
+theorem valued_step (st : State) (h : Reachable Variant.fixed st) (r : VarRef) (o : OutVar)
+    (ho : st.var? r = some o) (hv : o.value.isSome = true) :
+    ∃ n, st[r.node]? = some n ∧ n.kind ≠ .argument ∧
+      ∀ i ∈ n.inputs, ∃ oi, st.var? i = some oi ∧ oi.value.isSome = true := by
+  unfold State.var? at ho
+  cases hn : st[r.node]? with
+  | none => simp [hn] at ho
+  | some n =>
+    simp only [hn] at ho
+    have := (reachable_inv st h r.node n hn).2 ⟨o, List.mem_of_getElem? ho, hv⟩
+    exact ⟨n, rfl, this.1, this.2⟩
+
+/-- **value_is_input_independent.** A Var with a propagated value has no Argument node anywhere in
+    its dependency cone: by induction along the cone, every Var met on the way is itself valued,
+    and valued Vars never belong to Arguments. -/
+theorem value_is_input_independent (st : State) (h : Reachable Variant.fixed st) (r : VarRef)
+    (o : OutVar) (ho : st.var? r = some o) (hv : o.value.isSome = true)
+    (a : Nat) (hc : InCone st a r) : ∀ n, st[a]? = some n → n.kind ≠ .argument := by
+  induction hc generalizing o with
+  | self r =>
+    intro n hn
+    obtain ⟨n', hn', hk, _⟩ := valued_step st h r o ho hv
+    rw [hn] at hn'
+    cases hn'
+    exact hk
+  | input hnode hi _ ih =>
+    obtain ⟨n', hn', _, hins⟩ := valued_step st h _ o ho hv
+    rw [hnode] at hn'
+    cases hn'
+    obtain ⟨oi, h1, h2⟩ := hins _ hi
+    exact ih oi h1 h2
+
+/-- **constant_propagation_exact.** The value a Constant / initializer Var gets is the embedded
+    array itself (dtype-normalised), under the declared type - whatever the backend setting. -/
+theorem constant_propagation_exact (st st' : State) (key : String) (ty : Option Ty) (p : Payload)
+    (h : step Variant.fixed st (.constant key ty p) = .ok st') :
+    ∃ n, st' = st ++ [n] ∧ n.kind = .constant ∧
+      ∀ o ∈ n.outputs, ∀ pv, o.value = some pv →
+        ∃ t, ty = some t ∧ pv = PropValue.new t p ∧ n.sem [] o.key = some pv.value := by
+  simp only [step, Except.ok.injEq] at h
+  refine ⟨_, h.symm, rfl, ?_⟩
+  intro o ho pv hpv
+  simp only [merge, List.map_cons, List.map_nil, List.mem_singleton] at ho
+  subst ho
+  rcases C15.mergeOne_value [(key, p)] ⟨key, ty, none⟩ pv hpv with h1 | ⟨_, h2, _, q, hq, hpq⟩
+  · cases h1
+  · simp only [dictGet, ↓reduceIte, Option.some.injEq] at hq
+    subst hq
+    refine ⟨pv.type, h2, hpq, ?_⟩
+    rw [(C15.mergeOne_key_type _ _ _).1, hpq]
+    simp [PropValue.new, PropValue.value]
+
+/-- **mapping_correct.** For a standard node with any number of outputs: the value stored in the
+    output field `k` is the conversion - under the type of the output Var called `k` - of the raw
+    result the backend listed *under the name `k`* (never of a result listed under another name),
+    provided the evaluator names graph outputs only (it does not echo input names). -/
+theorem mapping_correct (sel : BackendSel) (ctx : NodeCtx) (names : List String) (vals : List RefVal)
+    (res : List (OutVar × Bool))
+    (h : construct Variant.fixed sel .standard ctx (.ret names vals) = .ok res)
+    (hfresh : ∀ o ∈ ctx.outputs, o.value = none)
+    (hin : ∀ n ∈ names, ∀ i ∈ ctx.inputs, i.name ≠ n) :
+    ∀ ow ∈ res, ∀ pv, ow.1.value = some pv →
+      ∃ r t pv', (ow.1.key, r) ∈ names.zip vals ∧
+        (∃ o ∈ ctx.outputs, o.key = ow.1.key ∧ o.type = some t) ∧
+        unwrapFeed sel t r = .ok pv' ∧ pv = PropValue.new pv.type pv'.value := by
+  intro ow how pv hpv
+  unfold construct at h
+  split at h
+  · cases h
+  · rename_i valsD hprop
+    simp only [Except.ok.injEq] at h
+    subst h
+    simp only [merge, List.mem_map] at how
+    obtain ⟨o, ho, rfl⟩ := how
+    rcases C15.mergeOne_value valsD o pv hpv with h1 | ⟨_, _, _, p, hget, hpq⟩
+    · rw [hfresh o ho] at h1; cases h1
+    · rw [(C15.mergeOne_key_type _ valsD o).1]
+      -- where does `valsD` come from?
+      have hsrc : ∃ rs, convertAll sel ctx (dictOf (names.zip vals)) = .ok rs ∧ valsD = keyed rs := by
+        cases sel with
+        | none => simp [propagate, propagateStd] at hprop; subst hprop; simp [dictGet] at hget
+        | reference =>
+          simp only [propagate, propagateStd, propagateOnnx, runCatch] at hprop
+          split at hprop
+          · simp only [Except.ok.injEq] at hprop; subst hprop; simp [dictGet] at hget
+          · split at hprop
+            · simp only [Except.ok.injEq] at hprop; subst hprop; simp [dictGet] at hget
+            · split at hprop
+              · rename_i rs hc
+                simp only [Except.ok.injEq] at hprop
+                exact ⟨rs, hc, hprop.symm⟩
+              · simp only [Variant.fixed, ↓reduceIte, Except.ok.injEq] at hprop
+                subst hprop; simp [dictGet] at hget
+        | onnxruntime =>
+          simp only [propagate, propagateStd, propagateOnnx, runCatch] at hprop
+          split at hprop
+          · simp only [Except.ok.injEq] at hprop; subst hprop; simp [dictGet] at hget
+          · split at hprop
+            · simp only [Except.ok.injEq] at hprop; subst hprop; simp [dictGet] at hget
+            · split at hprop
+              · rename_i rs hc
+                simp only [Except.ok.injEq] at hprop
+                exact ⟨rs, hc, hprop.symm⟩
+              · simp only [Variant.fixed, ↓reduceIte, Except.ok.injEq] at hprop
+                subst hprop; simp [dictGet] at hget
+      obtain ⟨rs, hc, rfl⟩ := hsrc
+      have hmem := mem_dictOf _ _ (dictGet_mem _ _ _ hget)
+      simp only [List.mem_filterMap] at hmem
+      obtain ⟨⟨k0, p0⟩, hk0, hk1⟩ := hmem
+      cases k0 with
+      | none => simp at hk1
+      | some k =>
+        simp only [Option.map_some, Option.some.injEq, Prod.mk.injEq] at hk1
+        obtain ⟨rfl, rfl⟩ := hk1
+        obtain ⟨name, r, ty, pv', hfeed, hlook, hu, hval⟩ := convertAll_mem sel ctx _ rs hc _ _ hk0
+        have hz := mem_dictOf _ _ hfeed
+        have hname : name ∈ names := (List.of_mem_zip hz).1
+        obtain ⟨o', ho', hk', hkk, hty⟩ := scopeLookup_output ctx name _ _ (hin name hname) hlook
+        simp only [Option.some.injEq] at hkk
+        subst hkk
+        exact ⟨r, ty, pv', hz, ⟨o', ho', hk', hty.symm⟩, hu, by rw [hval]; exact hpq⟩
+
+/-- **fold_correct (one construction step; partial).** *If* the backend is extensionally the run-time
+    semantics on this constant-fed singleton model - i.e. whatever it lists under an output name
+    converts to that output's run-time value `sem k` - *then* every value attached to an output Var
+    is that Var's run-time value. Together with `value_is_input_independent` (the fed values do not
+    depend on any model input) this is the folding argument for one node; the composition over whole
+    histories with C01's denotation is not proved here (the oracle compares with onnxruntime). -/
+theorem fold_correct_partial (sel : BackendSel) (ctx : NodeCtx) (names : List String)
+    (vals : List RefVal) (res : List (OutVar × Bool)) (sem : String → Option Payload)
+    (h : construct Variant.fixed sel .standard ctx (.ret names vals) = .ok res)
+    (hfresh : ∀ o ∈ ctx.outputs, o.value = none)
+    (hin : ∀ n ∈ names, ∀ i ∈ ctx.inputs, i.name ≠ n)
+    (hsem : ∀ k r t pv', (k, r) ∈ names.zip vals → (∃ o ∈ ctx.outputs, o.key = k ∧ o.type = some t) →
+      unwrapFeed sel t r = .ok pv' → sem k = some pv'.value) :
+    ∀ ow ∈ res, ∀ pv, ow.1.value = some pv →
+      ∃ q, sem ow.1.key = some q ∧ pv = PropValue.new pv.type q := by
+  intro ow how pv hpv
+  obtain ⟨r, t, pv', h1, h2, h3, h4⟩ := mapping_correct sel ctx names vals res h hfresh hin ow how pv hpv
+  exact ⟨pv'.value, hsem _ r t pv' h1 h2 h3, h4⟩
+
+/-! ### the pinned tree -/
+
+/-- Pinned: a Sequence-typed Var ends up with a value that does not conform to its type. -/
+theorem kept_value_conforms_counterexample :
+    ∃ st pv, step Variant.pinned []
+        (.standard .reference [] [] [("output", some (.seq C15.tI64x2))] false
+          (.ret ["output"] [C15.seqBad]) (fun _ _ => none)) = .ok st ∧
+      (st.var? ⟨0, 0⟩).bind (·.value) = some pv ∧ ¬ conforms pv.type pv.value := by
+  refine ⟨_, _, rfl, rfl, ?_⟩
+  simp [PropValue.type, PropValue.value, PropValue.new, conforms, C15.tI64x2, dtConf, DT.norm,
+    Payload.normalise, DT.isNumber]
+
+/-! ### non-vacuity: histories do attach values, through several nodes -/
+
+def demo : List Step :=
+  [ .constant "output" (some (.tensor .i64 (some [.const 2]))) (.arr .i64 [2] 1),
+    .argument "arg" (.tensor .i64 (some [.const 2])),
+    .standard .reference [⟨0, 0⟩, ⟨0, 0⟩] ["A", "B"] [("C", some (.tensor .i64 (some [.const 2])))] false
+      (.ret ["C"] [.arr .i64 [2] 2]) (fun _ _ => some (.arr .i64 [2] 2)),
+    .standard .reference [⟨2, 0⟩, ⟨1, 0⟩] ["A", "B"] [("C", some (.tensor .i64 (some [.const 2])))] false
+      (.ret ["C"] [.arr .i64 [2] 3]) (fun _ _ => some (.arr .i64 [2] 3)) ]
+
+/-- constant and add(const, const) get values; the argument and add(·, argument) do not -
+    even though the (misbehaving) backend returned a result for the latter. -/
+example : (run Variant.fixed [] demo).map (fun n => n.outputs.map (·.value.isSome))
+    = [[true], [false], [true], [false]] := by decide
+
+end C07
